@@ -34,6 +34,7 @@ func runC06(m *Sim) {
 	w := NewWorld(m)
 	defer w.Shutdown()
 	h := NewHist(w, "srv0", "C06")
+	h.WideIDs = true
 	SetSlot(uint32(500 + m.C.Int("now0", 2500)))
 	h.Boot()
 	// Before registration nothing is accepted.
